@@ -266,7 +266,7 @@ def classify(res, g, oj, diags, stderr):
             if sec is not None and sec.get("text"):
                 what += ": " + sec["text"][0]["text"].strip()
             line_txt = prim[0]["text"][0]["text"].strip() if prim[0].get("text") else ""
-            oid = "%s/%s@%s" % (po.get("fn"), re.sub(r"\s+", "-", what)[:160], re.sub(r"\s+", " ", line_txt)[:80])
+            oid = "%s/%s@%s" % (po.get("fn"), re.sub(r"\s+", "-", what)[:160], re.sub(r"\s+", "_", line_txt)[:80])
             o = Obligation(oid, po.get("fn"), "implicit", what + " at `" + line_txt + "`")
             o.status, o.detail = "FAILED", rendered
             res.obligations.append(o)
@@ -278,7 +278,7 @@ def classify(res, g, oj, diags, stderr):
             continue
         # failure located in hand-written template text (lemma / spec fn)
         line_txt = prim[0]["text"][0]["text"].strip() if prim[0] and prim[0].get("text") else ""
-        oid = "template/%s@%s" % (re.sub(r"\s+", "-", msg)[:60], re.sub(r"\s+", " ", line_txt)[:80])
+        oid = "template/%s@%s" % (re.sub(r"\s+", "-", msg)[:60], re.sub(r"\s+", "_", line_txt)[:80])
         o = Obligation(oid, "(template)", "lemma", msg + " at `" + line_txt + "`")
         o.status, o.detail = "FAILED", rendered
         res.obligations.append(o)
@@ -294,10 +294,16 @@ def classify(res, g, oj, diags, stderr):
         fname = m.group(1) if m else ex.name.split("::")[-1]
         cands = [k for k in fn_ok if k == fname or k.endswith("::" + fname)]
         ok = bool(cands) and all(fn_ok[k][0] for k in cands)
+        n_failed_here = sum(1 for o in res.obligations if o.fn == ex.name and o.status == "FAILED")
         for o in res.obligations:
             if o.fn == ex.name and o.status == "unknown":
                 if ok:
                     o.status = "discharged"
+                elif 0 < n_failed_here < 40 and not any("solver gave up" in u for u in res.undecided):
+                    # --multiple-errors: Verus keeps going after each failing obligation (assuming it) and reports every
+                    # further one; a clause it did not name was proved
+                    o.status = "discharged"
+                    o.detail = "function has other failing obligations; this one was not reported among them"
                 else:
                     o.status = "undecided"
         if not ok and not any(o.status == "FAILED" for o in res.obligations if o.fn == ex.name):
